@@ -86,6 +86,9 @@ def main(argv=None):
             mod.run(run)
         except harness_mod().TooManyTimeouts as e:
             run.inconclusive_because("case-watchdog:%s" % e)
+            run.extra["watchdog_cases"] = list(harness_mod().TIMEOUT_CASES)
+            for c in harness_mod().TIMEOUT_CASES[:2]:
+                print("WATCHDOG case: %s of %s on input %s\n%s" % (c["call"], c["class"], c["input"], c["source"]))
         except Exception as e:  # harness error: never a verdict
             import traceback
             run.inconclusive_because("harness-error:%s:%s" % (type(e).__name__, str(e)[:200]))
@@ -102,6 +105,9 @@ def main(argv=None):
             mod.run(run)
         except harness_mod().TooManyTimeouts as e:
             run.inconclusive_because("case-watchdog:%s" % e)
+            run.extra["watchdog_cases"] = list(harness_mod().TIMEOUT_CASES)
+            for c in harness_mod().TIMEOUT_CASES[:2]:
+                print("WATCHDOG case: %s of %s on input %s\n%s" % (c["call"], c["class"], c["input"], c["source"]))
         except Exception as e:
             import traceback
             traceback.print_exc()
